@@ -96,3 +96,28 @@ META["C17"] = dict(
          "every family must be collision-free.",
     note="Only the listed families are explored; a padding fault that needs another relation between inputs is out of reach.",
 )
+META["C18"] = dict(
+    technique="differential monitor against a recursive-hash reference over all three batch-proof routes + cross-run root-digest checker over builds/thread counts + TSan + Miri",
+    text="Every tree node is observed (root, serial node array, all opened paths) and compared with a level-by-level pairwise "
+         "hash; all non-empty index subsets of small trees and structured/random subsets of larger ones are opened in four "
+         "orders and pushed through prove_batch, get_root, verify_batch, from_single_proofs, into_openings and the "
+         "VectorCommitment facade, with equality between the routes; the same cases run in the serial and the concurrent "
+         "build at several thread counts (incl. non-powers of two) and an offline checker requires identical roots.",
+    note="Subsets are exhaustive only up to the stated leaf count; above it they are sampled.",
+)
+META["C19"] = dict(
+    technique="fault-substitution monitor on honest openings + hostile-input workers (release, overflow-check, ASan) with panic/abort capture",
+    text="Each honest opening is re-verified after every single substitution the property lists and must be rejected; "
+         "tens of thousands of structurally mutated / random batch proofs, index lists and leaf lists (and mutated "
+         "encodings) are pushed through get_root, verify_batch and into_openings in isolated workers where a panic, abort "
+         "or sanitizer report is a violation.",
+    note="Surplus trailing data that verification never reads is not judged (see assumptions).",
+)
+META["C20"] = dict(
+    technique="history monitor against an executable model of the coin (two real coins + model per history)",
+    text="Random reseed/draw/draw_integers/check_leading_zeros histories are applied to two independent real coins and to a "
+         "25-line model of the documented seed/counter machine with an independent element decoder; every step's output "
+         "must be identical across the three, counts and ranges of integer draws are checked directly, and reseeding "
+         "sensitivity is checked on real coins.",
+    note="The model shares the Hasher trait functions with the code; it does not re-derive the hash.",
+)
